@@ -3,6 +3,10 @@ import TrionModel.Lemmas.ShowAsm
 import TrionModel.Lemmas.ShowText
 import TrionModel.Lemmas.ShowDec
 import TrionModel.Model.Asm
+import TrionModel.Lemmas.ShowParts
+import TrionModel.Lemmas.ShowProg
+import TrionModel.Props.C09
+import TrionModel.Props.C01
 /-!
 # C19 — the disassembly text of an instruction assembles back to that instruction
 
@@ -129,6 +133,127 @@ theorem show_roundtrip (bs : List Nat) (hb : Codec.IsBytes bs) (n : Nat) (i : In
   obtain ⟨hws, he, hl2, hd⟩ := Codec.dec_canon bs hb n i h
   exact ⟨i, hws, show_assembles_eval i a lk eval hE loc (printable_of_encode i a hws0 he0 wf ht)
     (memNonneg_of_encode i hws0 he0) hl, rfl, he, hl2, hd⟩
+
+
+/-! ## text → tokens → trees
+
+`Lex.Piece`, `Lex.Valid`, `Lex.lexed`, `Lex.tokens_pieces` (`Lemmas/LexPieces.lean`): a text cut into white space and
+single tokens is read back by the tokenizer as exactly those tokens, each positioned (by `Pos.adv`, the position
+specification of C12) at its first byte. `stmtPieces` (`Lemmas/ShowLex.lean`) cuts `render p` that way.
+`LitOk i` (`Lemmas/ShowParts.lean`): the integer literals in the text of `i` are not negative (`-5` is read as the
+unary minus of the literal 5, the tree `neg (const 5)`, not `const (-5)`) — true of everything the encoder accepts. -/
+
+/-- C19.i  **The tokenizer reads the disassembly text back.** `Tokenizer::new(text i a)` iterated to exhaustion
+yields no error and exactly the tokens of the printed statement: the mnemonic as ONE identifier (`UDF.N`, `UDF.W`
+included: `.` continues an identifier), register names and `l_XXXXXXXX` labels as identifiers, decimal integers as
+numbers with their value, `,` `;` `[` `]` `{` `}` `+`; single blanks are skipped. Each token is positioned at its
+first byte (`Lex.lexed (1, 1)`: line 1, column 1 + byte offset), the end position is that of the end of the text,
+and the token values are `Render.elemVal` of the instruction statement `parts i a` — the rendering C09 parses back. -/
+theorem lex_show (i : Instr) (a : Nat) (hl : LitOk i) :
+    Lex.tokens (text i a) =
+      .ok ⟨Lex.lexed (1, 1) (stmtPieces (parts i a)), none, (Pos.of (text i a)).1, (Pos.of (text i a)).2⟩ ∧
+    (Lex.lexed (1, 1) (stmtPieces (parts i a))).map (·.val) =
+      Render.elemVal (.instruction (parts i a).1 (Args.ofList (parts i a).2)) := by
+  have hargs := args_ok i a hl
+  have hb : Lex.pbytes (stmtPieces (parts i a)) = text i a := by
+    rw [pbytes_stmt _ hargs, text_eq_render]
+  have hv := valid_stmt (parts i a) (name_ok i a) hargs none
+  refine ⟨?_, ?_⟩
+  · have := Lex.tokens_pieces _ hv
+    rw [hb] at this
+    rw [this, Pos.of_eq_adv]
+  · rw [Lex.lexed_vals, tokVals_stmt _ hargs]
+
+/-- C19.j  **The parser reads the tokens back** (C09 `stmt_roundtrip` / `program_roundtrip` applied to `lex_show`):
+lexing and parsing the disassembly text of `i` at `a` yields exactly one element, at 1:1, no error: the instruction
+statement whose name is the printed mnemonic and whose argument trees are `Show.parts i a`. -/
+theorem parse_show (i : Instr) (a : Nat) (hl : LitOk i) :
+    ∃ lo, Lex.tokens (text i a) = .ok lo ∧ lo.err = none ∧
+      Parse.all lo = .done [⟨1, 1, .instruction (parts i a).1 (Args.ofList (parts i a).2)⟩] none := by
+  obtain ⟨h1, h2⟩ := lex_show i a hl
+  refine ⟨_, h1, rfl, ?_⟩
+  have hargs := args_ok i a hl
+  -- the first token is the mnemonic at 1:1
+  generalize hts : Lex.lexed (1, 1) (stmtPieces (parts i a)) = ts at h2
+  have hfirst : ∃ body, ts = ⟨1, 1, .ident (parts i a).1⟩ :: body := by
+    rw [← hts]; exact ⟨_, rfl⟩
+  obtain ⟨body, rfl⟩ := hfirst
+  have := Parse.program_roundtrip
+    [(ElemVal.instruction (parts i a).1 (Args.ofList (parts i a).2), (⟨1, 1, .ident (parts i a).1⟩ : Token), body)]
+    (by intro x hx; simp at hx; subst hx; exact ⟨stmt_wf _ (name_ok i a) hargs, h2⟩)
+    (Pos.of (text i a)).1 (Pos.of (text i a)).2
+  simpa [Parse.progToks, Parse.progElems] using this
+
+/-- every instruction the encoder accepts — in particular every decoded one — satisfies `LitOk` -/
+theorem decoded_litOk (bs : List Nat) (hb : Codec.IsBytes bs) (n : Nat) (i : Instr)
+    (h : Codec.decode bs = .ok (n, i)) : LitOk i := by
+  obtain ⟨wf, hws, he⟩ := Codec.decode_wf bs hb n i h
+  exact litOk_of_encode i hws he wf
+
+/-- C19.k  **End to end on text.** Bytes that decode to `i` → the text `Display` prints for `i` at `a` → the tokenizer
+→ the parser give exactly one instruction statement `name args`; `Front.build` of that statement at `a`, with the
+concrete evaluator over any symbol table that defines the label the text mentions as the address it names, gives
+`i` again; the encoder accepts it and its bytes are the canonical encoding, which decodes to `i`. -/
+theorem show_text_roundtrip (bs : List Nat) (hb : Codec.IsBytes bs) (n : Nat) (i : Instr)
+    (h : Codec.decode bs = .ok (n, i)) (a : Nat) (ht : targetInRange i a)
+    (lk : Bytes → Simp.Lookup) (eval : Arg → EvalOut) (hE : EvalIsSimp eval lk) (loc : Bool)
+    (hl : ∀ t, targetOf i a = some t → lk (label t) = .found (t : Int)) :
+    ∃ lo name args hws, Lex.tokens (text i a) = .ok lo ∧ lo.err = none ∧
+      Parse.all lo = .done [⟨1, 1, .instruction name args⟩] none ∧
+      build a name args.toList eval loc = .completed i ∧
+      Codec.encode i = .ok hws ∧ 2 * hws.length = n ∧ Codec.decode (Codec.toBytes hws) = .ok (n, i) ∧
+      Arm.decode hws = some i := by
+  obtain ⟨lo, h1, h2, h3⟩ := parse_show i a (decoded_litOk bs hb n i h)
+  obtain ⟨i', hws, hbld, hi, he, hn, hd⟩ := show_roundtrip bs hb n i h a ht lk eval hE loc hl
+  subst hi
+  obtain ⟨wf, _, _⟩ := Codec.decode_wf bs hb n i' h
+  exact ⟨lo, _, _, hws, h1, h2, h3, by rw [toList_ofList]; exact hbld, he, hn, hd, Codec.enc_sound i' hws he wf⟩
+
+
+/-- C19.l  **Through the whole pipeline model.** `progText i a` (`Lemmas/ShowProg.lean`) is the program
+`.addr <a>;` ⏎ [`.const l_XXXXXXXX, <target>;` ⏎ — only if the text mentions a label] `<Show.text i a>`.
+For bytes that decode to `i` (`n` of them), an address `a` at which the PC-relative target lies inside the address
+space and `a + n ≤ 2^32`: `Asm.run` — tokenizer, parser, `.addr`, `.const`, the instruction statement with the real
+evaluator model over the real constant table, front end, encoder, output regions, local task loop, `close_segment`,
+`finalize` — on any file system whose main file is that program SUCCEEDS, records NO diagnostic, and its image is
+exactly one region: the canonical encoding of `i` (same length `n`, decodes to `i`, and is the ARMv6-M table's
+encoding of `i`) at address `a`. -/
+theorem show_run (bs : List Nat) (hb : Codec.IsBytes bs) (n : Nat) (i : Instr)
+    (h : Codec.decode bs = .ok (n, i)) (a : Nat) (ht : targetInRange i a) (hfit : a + n ≤ 4294967296)
+    (fs : Bytes → Option Bytes) (main : Bytes) (hfs : fs main = some (progText i a)) :
+    ∃ hws, Codec.encode i = .ok hws ∧ 2 * hws.length = n ∧ Codec.decode (Codec.toBytes hws) = .ok (n, i) ∧
+      Arm.decode hws = some i ∧
+      Asm.run fs main = .done ⟨true, none, true, [], [(a, (Codec.toBytes hws).map (·.toUInt8))]⟩ := by
+  obtain ⟨i', hws, hbld, hi, he, hn, hd⟩ := show_roundtrip bs hb n i h a ht (fun x => (progTable i a).get x)
+    (Asm.frontEval (progTable i a)) (frontEval_isSimp _) true (progTable_get i a)
+  subst hi
+  obtain ⟨wf, _, _⟩ := Codec.decode_wf bs hb n i' h
+  have hlen := (Codec.enc_len i' hws he wf).1
+  exact ⟨hws, he, hn, hd, Codec.enc_sound i' hws he wf,
+    run_prog i' a (decoded_litOk bs hb n i' h) hws he hlen (by omega) hbld fs main hfs⟩
+
+/-- non-vacuity: the program for `BEQ` back to its own address (`0xFE 0xD0` at 0x20000000) -/
+example : progText (.b 0 (-4)) 0x20000000 = bytesOf ".addr 536870912;\n.const l_20000000, 536870912;\nBEQ l_20000000;" ∧
+    Codec.decode [0xFE, 0xD0] = .ok (2, .b 0 (-4)) ∧ targetInRange (.b 0 (-4)) 0x20000000 := by
+  refine ⟨by decide, rfl, ?_⟩
+  simp [targetInRange, Front.pcOf]
+example : progText (.nop) 8 = bytesOf ".addr 8;\nNOP;" := by decide
+
+/-- non-vacuity / the columns: `LDR R1, [SP + 8];` -/
+example : text (.ldr 1 13 (.imm 8)) 0 = bytesOf "LDR R1, [SP + 8];" ∧
+    Lex.lexed (1, 1) (stmtPieces (parts (.ldr 1 13 (.imm 8)) 0)) =
+      [⟨1, 1, .ident (bytesOf "LDR")⟩, ⟨1, 5, .ident (bytesOf "R1")⟩, ⟨1, 7, .sep⟩, ⟨1, 9, .lbrack⟩,
+       ⟨1, 10, .ident (bytesOf "SP")⟩, ⟨1, 13, .plus⟩, ⟨1, 15, .num 8⟩, ⟨1, 16, .rbrack⟩, ⟨1, 17, .term⟩] ∧
+    LitOk (.ldr 1 13 (.imm 8)) := by
+  refine ⟨by decide, by decide, ?_⟩
+  intro v hv; simp [litOf] at hv; subst hv; decide
+example : text (.udfw 300) 0 = bytesOf "UDF.W 300;" ∧
+    Lex.lexed (1, 1) (stmtPieces (parts (.udfw 300) 0)) =
+      [⟨1, 1, .ident (bytesOf "UDF.W")⟩, ⟨1, 7, .num 300⟩, ⟨1, 10, .term⟩] := by
+  refine ⟨by decide, by decide⟩
+/-- `LitOk` is needed: `ADDS R0, R0, -1;` lexes to `… , - 1 ;` and parses to `neg (const 1)`, not `const (-1)` -/
+example : ¬ LitOk (.add true 0 0 (.imm (-1))) := by
+  intro h; have := h (-1) rfl; omega
 
 /-- non-vacuity of the decoded / concrete-evaluator forms: `LDR R1, [PC + 8]` at 2 (label l_0000000C), and a
 table defining that label -/
